@@ -560,6 +560,9 @@ mod value_laws {
         add("[nil]", Value::Array(vec![Value::Nil]), false);
         add("{}", obj(&[]), false);
         add("{k:1}", obj(&[("k", Value::scalar(1i64))]), false);
+        // same size, different key sets
+        add("{j:1}", obj(&[("j", Value::scalar(1i64))]), false);
+        add("{j:2}", obj(&[("j", Value::scalar(2i64))]), false);
         // multi-key objects: the two copies are built in opposite insertion orders
         let many: Vec<(String, Value)> = (0..12).map(|i| (format!("key{i}"), Value::scalar(i as i64))).collect();
         let mut keys: Vec<(&str, Value)> = many.iter().map(|(k, v)| (k.as_str(), v.clone())).collect();
@@ -570,6 +573,9 @@ mod value_laws {
             ab.reverse();
             ab3.reverse();
         }
+        let mut ac = vec![("a", Value::scalar(1i64)), ("c", Value::scalar(2i64))];
+        if rev { ac.reverse(); }
+        add("{a:1,c:2}", obj(&ac), false);
         add("{a:1,b:2}", obj(&ab), false);
         add("{a:1,b:3}", obj(&ab3), false);
         add("{key0..key11}", obj(&keys), false);
